@@ -490,3 +490,78 @@ NOT_DECIDED = [
     "the lexer's decision that `not` is a keyword only after WHERE, on arbitrary strings",
     "result sets on real trees",
 ]
+
+
+def r9(ctx):
+    """prefix and infix NOT compose by parity: parse_cond evaluated (finite interpreter; the parser's cursor is its lexem list and
+    index, the operand level parse_add_sub is a stand-in that takes one word; Expr::op / logical_op, Op::from_with_not, Op::negate
+    and negate_expr_op are read from the source) on 0..3 prefix NOTs x an infix NOT or none x the operators like, =, gt,
+    BETWEEN: the condition built is the plain one for an even number of NOTs and its complement for an odd number"""
+    import interp
+    from extra import _expr_dict
+    V = interp.V
+    fn = "parser::Parser::parse_cond"
+    hir = ctx.anchor_hir(fn)
+    ps = ctx.prog.fns[fn]["params"]
+    W, OP, NOT, AND = (lambda t: V("Lexem::RawString", [t])), (lambda t: V("Lexem::Operator", [t])), V("Lexem::Not"), V("Lexem::And")
+    NEG = {"Like": "NotLike", "Eq": "Ne", "Gt": "Lte"}
+    BASE = {"like": "Like", "=": "Eq", "gt": "Gt"}
+
+    def unsome(x):
+        return x.args[0] if isinstance(x, V) and x.name == "Option::Some" else (None if x == interp.NONE else x)
+
+    def shape(e):
+        e = unsome(e)
+        if not isinstance(e, dict):
+            return repr(e)
+        lo, op = unsome(e.get("logical_op")), unsome(e.get("op"))
+        if lo is not None:
+            return (lo.name.split("::")[-1], shape(e.get("left")), shape(e.get("right")))
+        if op is not None:
+            return (op.name.split("::")[-1], shape(e.get("left")), shape(e.get("right")))
+        return unsome(e.get("val"))
+    n = 0
+    for k in range(4):
+        for infix in (False, True):
+            for word in ("like", "=", "gt", "between"):
+                lex = [NOT] * k + [W("x")] + ([NOT] if infix else []) + [OP(word), W("a")] + ([AND, W("b")] if word == "between" else [])
+                selfv = interp.LazySelf({"lexems": list(lex), "index": 0, "roots_parsed": True, "where_parsed": False})
+
+                def call(node, recv, args, it, env, selfv=selfv):
+                    m_ = node.get("m")
+                    callee = str(node.get("callee", ""))
+                    if m_ == "parse_add_sub" or callee.endswith("Parser::parse_add_sub"):
+                        i = selfv["index"]
+                        if i < len(selfv["lexems"]) and selfv["lexems"][i].name == "Lexem::RawString":
+                            selfv["index"] = i + 1
+                            return (V("Result::Ok", [interp.some(_expr_dict(interp, val=interp.some(selfv["lexems"][i].args[0])))]),)
+                        return (V("Result::Err", ["Error parsing expression"]),)
+                    if m_ in ("clone", "to_owned") and isinstance(recv, (dict, V)):
+                        import copy
+                        return (copy.deepcopy(recv),)
+                    return None
+                spelled = " ".join(["not"] * k + ["x"] + (["not"] if infix else []) + [word, "a"] + (["and", "b"] if word == "between" else []))
+                try:
+                    got = interp.Interp(call=call, prog=ctx.prog, max_steps=60000).run(hir, {ps[0]["id"]: selfv})
+                except interp.Undecided as e:
+                    ctx.obligation(False)
+                    ctx.violation("not-composition/unreadable", ctx.where(fn), "cannot evaluate parse_cond on `%s`: %s" % (spelled, e))
+                    return
+                n += 1
+                odd = (k + (1 if infix else 0)) % 2 == 1
+                if word == "between":
+                    want = ("Or", ("Lt", "x", "a"), ("Gt", "x", "b")) if odd else ("And", ("Gte", "x", "a"), ("Lte", "x", "b"))
+                else:
+                    want = (NEG[BASE[word]] if odd else BASE[word], "x", "a")
+                g = shape(got.args[0]) if isinstance(got, V) and got.name == "Result::Ok" else repr(got)
+                ok = g == want and selfv["index"] == len(lex)
+                ctx.obligation(ok)
+                if not ok:
+                    ctx.violation("not-composition/%s" % ("between" if word == "between" else "comparison"), ctx.where(fn),
+                                  "`%s` (%d NOT%s in all) is parsed as %s, expected %s: prefix and infix NOT compose by parity, each one complements the condition" %
+                                  (spelled, k + (1 if infix else 0), "" if k + infix == 1 else "s", g, want))
+    ctx.covered("parse_cond evaluated on 0..3 prefix NOTs x infix NOT x 4 operators (condition = plain or complement by parity)", n, distinct_keys=["like", "=", "gt", "between"], exhaustive=True)
+    ctx.floor(n, 32, "NOT compositions of parse_cond", fn)
+
+
+RULES.append(("C03-R9", "prefix and infix NOT compose by parity (parse_cond evaluated)", r9))
